@@ -1,5 +1,5 @@
 # claims table for gen_manifest.py (python; uses claim(), TB, RG, NOT_APPLICABLE)
-LOCKS_DONE = "PessimisticLock and OptimisticLock are covered; MCSLock is not yet under contract for this property (named here so that it is not counted). "
+LOCKS_DONE = "PessimisticLock and OptimisticLock: unbounded rely/guarantee proof. MCSLock: every protocol step is checked against its step obligation for arbitrary contents of all shared words, relative to the ASSUMED global queue invariant Q (listed in the evidence). "
 
 claim('C01', 'proof',
       "Lock-word invariant and grant legality (the S/SIX/X matrix at the instant of every grant) asserted at every atomic step of every lock function, for an arbitrary pre-state and arbitrary interference; unbounded in threads, schedules and holder counts.",
@@ -67,3 +67,8 @@ claim('C17', 'other',
 claim('C20', 'other',
       "Proved: exact contents of the published list (two tracked-value inclusions, strict descent from the assumed sort/unique contracts, min = last). Bounded (labelled, <= 5 nodes, <= 6 values, unwind 8 with unwinding assertions): RemoveOutDatedLists keeps exactly head + nodes holding a protected epoch + tail and deletes the rest once, memory safety, destructor frees all nodes, lookup returns the right node.",
       TB + EPN + "CBMC contracts have no unbounded linked-structure predicate, hence the bounded part.", "CBMC code contracts + bounded unwinding of the real list code", "3 C20")
+
+claim('C12', 'proof',
+      "Node life-cycle obligations on the extracted MCSLock code: a request takes at most one node and either publishes it or hands it back; a release recycles the group's node iff its own update left no flag behind (tail path: iff it freed the lock word); at most one recycle per call; no access to a node after it was handed back.",
+      TB + RG + "Relative to the assumed queue invariant Q (cross-thread use-after-recycle is excluded only by Q); unique_ptr cache semantics are an assumed library contract.",
+      "CBMC code contracts + ghost node life cycle in the MCS stubs; replay by allocation counting on the real lock", "3 C12")
